@@ -11,7 +11,6 @@ SITES = ['start', 'ts.canceled.load', 'tsk.schedule.outstanding.load', 'tsk.sche
          'tsk.trywait.load2', 'ts.cancel.store', 'ts.h.worker']
 TAGS = {'b': 1, 'e': 2, 'x': 3, 'u': 4, 's': 5, 'w': 6, 'tw': 7, 'rt': 8, 'c': 9, 'wk': 10, 'bs': 11, 'ee': 12, 'wc': 13, 'sf': 14, 'bf': 15}
 BODY_SITES = (3, 5, 6, 8, 9, 12, 29)
-KEY_C04 = 'cts-schedule-overload-fallback-ignores-cancel'
 IMPORTS = 'From DV Require Import Base.MachInt Base.Sched Model.TaskSetModel Model.TaskSetCheck Model.C02Check Model.C04Check Model.C05Check Model.C47Check.'
 
 
@@ -288,7 +287,7 @@ def gen_case(r, flavour='mixed'):
 
 
 def witness_c04():
-    """C04_refuted replayed in lockstep: workRemaining_ 40 > poolLoadFactor_ 32, cts.cancel(); cts.schedule(f) runs f"""
+    """regression (former C04_refuted witness): workRemaining_ 40 > poolLoadFactor_ 32, cts.cancel(); cts.schedule(f) must not run f"""
     return {'budget': 30, 'nthr': 1, 'plf': 32, 'wr': 40, 'sets': [(1, 0, 4, -1, 0)], 'threads': [(0, 0, [('c', 0), ('s', 0, 0, 0, [])])], 'sched': [0] * 30}
 
 
@@ -366,9 +365,7 @@ def d_fallback(ctx, exe, dcases, on_verdict):
         if v is None:
             continue
         out, wr, n, plf, lf, canc, incall, fout, aout, ran = v
-        overloaded = (d['recursive'] and d['nthr'] > 0 and wr > (n * d['prlf2']) // 2) or wr > plf
-        in_domain = d['cls'] in (1, 2) and not d['force'] and not d['skip'] and d['depth'] < 32 and overloaded and canc
-        if canc and d['cls'] != 3 and (incall or ran) and not in_domain:
+        if canc and d['cls'] != 3 and (incall or ran):
             on_verdict(2, d, v, o)
         elif d['force'] and n >= 1 and incall:
             on_verdict(2, d, v, o)
